@@ -87,6 +87,18 @@ static spec_c04_case c04_case_UserProvidedPublicationTimeVerification(const KSI_
 	const KSI_PublicationData *pd = c04_sig_pubdata(info);
 	return C04_CASE2(pd != NULL && pd->time != NULL && info->userPublication->time != NULL, pd->time->value == info->userPublication->time->value);
 }
+/* "user provided publication time does NOT equal the publication time inside the signature" (selects the extension branch);
+ * a signature without publication record, or a missing time, counts as "does not suit" */
+static spec_c04_case c04_case_UserProvidedPublicationTimeDoesNotSuit(const KSI_VerificationContext *info) {
+	if (!C04_ARGS_OK(info) || info->userPublication == NULL) return SPEC_C04_UNDECIDABLE;
+	if (info->signature->publication == NULL) return SPEC_C04_HOLDS;
+	const KSI_PublicationData *pd = c04_sig_pubdata(info);
+	return C04_CASE2(pd != NULL, pd->time == NULL || info->userPublication->time == NULL || pd->time->value != info->userPublication->time->value);
+}
+/* "the user has NOT provided a publication" (general policy: the publications-file and key based branches are only tried then) */
+static spec_c04_case c04_case_RequireNoUserProvidedPublication(const KSI_VerificationContext *info) {
+	return C04_CASE2(C04_ARGS_OK(info), info->userPublication == NULL);
+}
 /* PUB-04 "user provided publication hash equals to publication hash inside the signature" */
 static spec_c04_case c04_case_UserProvidedPublicationHashVerification(const KSI_VerificationContext *info) {
 	if (!C04_ARGS_OK(info) || info->userPublication == NULL) return SPEC_C04_UNDECIDABLE;
@@ -254,6 +266,17 @@ C04_FRAME_RESULT;
 int KSI_VerificationRule_UserProvidedPublicationTimeVerification(KSI_VerificationContext *info, KSI_RuleVerificationResult *result)
 C04_COMMON_REQUIRES
 C04_VERDICT(UserProvidedPublicationTimeVerification, c04_case_UserProvidedPublicationTimeVerification(info))
+C04_FRAME_RESULT;
+
+int KSI_VerificationRule_UserProvidedPublicationTimeDoesNotSuit(KSI_VerificationContext *info, KSI_RuleVerificationResult *result)
+C04_COMMON_REQUIRES
+C04_VERDICT(UserProvidedPublicationTimeDoesNotSuit, c04_case_UserProvidedPublicationTimeDoesNotSuit(info))
+C04_FRAME_RESULT;
+
+int KSI_VerificationRule_RequireNoUserProvidedPublication(KSI_VerificationContext *info, KSI_RuleVerificationResult *result)
+C04_COMMON_REQUIRES
+C04_VERDICT(RequireNoUserProvidedPublication, c04_case_RequireNoUserProvidedPublication(info))
+__CPROVER_ensures(IMPLIES(result != NULL && C04_ARGS_OK(info), __CPROVER_return_value == KSI_OK))
 C04_FRAME_RESULT;
 
 int KSI_VerificationRule_UserProvidedPublicationHashVerification(KSI_VerificationContext *info, KSI_RuleVerificationResult *result)
